@@ -14,4 +14,4 @@ def lst(xs):
 
 # every translator runs on every check (so that no generated file is ever stale);
 # a failure breaks only the properties that list the translator as their own
-ALL_TRANSLATORS = [('crc2coq.py', ['coq/Gen/CrcGen.v']), ('consts2coq.py', ['coq/Gen/Consts.v']), ('bf2coq.py', ['coq/Gen']), ('bfproofs.py', ['coq/Gen']), ('reg2coq.py', ['coq/Gen/RegLeafGen.v'])]
+ALL_TRANSLATORS = [('crc2coq.py', ['coq/Gen/CrcGen.v']), ('consts2coq.py', ['coq/Gen/Consts.v']), ('bf2coq.py', ['coq/Gen']), ('bfproofs.py', ['coq/Gen']), ('reg2coq.py', ['coq/Gen/RegLeafGen.v']), ('regp2coq.py', ['coq/Gen/RegpMotvGen.v'])]
